@@ -18,7 +18,8 @@ def zeroOf (kind : String) : String := if kind = "string" then "-" else "0"
 
 def report (entries : List (String × String)) (toks : List (String × String)) : String :=
   let parts := entries.map fun (key, kind) =>
-    key ++ "=" ++ (match toks.lookup key with | some v => v | none => zeroOf kind)
+    -- a key written twice (site overrides appended to the stock file): the LAST occurrence is the value
+    key ++ "=" ++ (match toks.reverse.lookup key with | some v => v | none => zeroOf kind)
   "ok " ++ ";".intercalate (parts.mergeSort (fun a b => !(b < a)))
 
 /-- model: a value written under a key arrives in the field whose yaml tag is that key (Gen.Wiring.fields);
